@@ -225,8 +225,8 @@ func (r *Runner) Stop() {
 func (r *Runner) shutdown(ctx context.Context) error {
 	logger := r.logger.WithGroup("shutdown")
 	logger.Debug("Shutting down...")
-	r.mu.RLock()
-	defer r.mu.RUnlock()
+	r.mu.Lock()
+	defer r.mu.Unlock()
 
 	ctx, cancel := context.WithCancel(ctx)
 	defer cancel()
